@@ -72,6 +72,15 @@ class BlockArgument(SSAValue):
     def block(self):
         return self.owner
 
+    @property
+    def index(self):
+        k = 0
+        for a in self.owner.args:
+            if a is self:
+                return k
+            k += 1
+        return -1
+
     def replace_uses_with_if(self, value, predicate):
         """recorded, not performed: the contract reads `replaced` to see which value users now see"""
         self.replaced = (value, predicate)
